@@ -109,10 +109,16 @@ func vksStart(t testing.TB, parent string, conf vksConf, dirs []string) *vksServ
 		cl.Volumes = map[string]arvados.Volume{}
 		for k := 0; k < conf.N; k++ {
 			params, _ := json.Marshal(map[string]interface{}{"Root": dirs[k], "Serialize": conf.Ser})
-			cl.Volumes[fmt.Sprintf("zzzzz-nyw5e-%015d", k+1)] = arvados.Volume{
-				Driver: "Directory", DriverParameters: params, Replication: 1,
-				ReadOnly: k < len(conf.RO) && conf.RO[k],
+			ro := k < len(conf.RO) && conf.RO[k]
+			vol := arvados.Volume{Driver: "Directory", DriverParameters: params, Replication: 1}
+			if ro && k%2 == 1 {
+				// a mount can be read-only for THIS server only (AccessViaHosts) while the volume itself is
+				// not: then UnixVolume's own ReadOnly checks do not apply and the handlers must refuse
+				vol.AccessViaHosts = map[arvados.URL]arvados.VolumeAccess{testServiceURL: {ReadOnly: true}}
+			} else {
+				vol.ReadOnly = ro
 			}
+			cl.Volumes[fmt.Sprintf("zzzzz-nyw5e-%015d", k+1)] = vol
 		}
 		h := &handler{}
 		ctx := ctxlog.Context(context.Background(), ctxlog.New(ioutil.Discard, "text", "error"))
